@@ -37,7 +37,8 @@ def writableExpected (wBefore : Bool) (os : List ObsRep) : Bool := wBefore && !s
 def writableJudge (wBefore wAfter : Bool) (os : List ObsRep) : Option String :=
   if wAfter == writableExpected wBefore os then none
   else if wBefore then
-    if os.any (fun o => o.got.contains .compact && o.rep.cmp != .ok) then some "batchVacuumVolumeCompact/failed-compaction-leaves-volume-unwritable"
+    if wAfter then some "batchVacuumVolumeCommit/writable-although-a-volume-server-answered-read-only"
+    else if os.any (fun o => o.got.contains .compact && o.rep.cmp != .ok) then some "batchVacuumVolumeCompact/failed-compaction-leaves-volume-unwritable"
     else if os.any (fun o => o.got.contains .commit && o.rep.cmt == .err) then some "batchVacuumVolumeCommit/failed-commit-leaves-volume-unwritable"
     else some "vacuum/volume-left-unwritable"
   else
